@@ -12,10 +12,14 @@ satisfy them, hold the documented normalisation of the value, and do so identica
 the rows whose stored value equals the normalised value (also through `select(lambda)`).
 """
 import itertools, math, sys
+from datetime import date, time, datetime, timedelta
 from decimal import Decimal, InvalidOperation
 from fractions import Fraction
 from pony.orm import Database, Required, Optional, PrimaryKey, LongStr, db_session, select, rollback, commit
 from pony.orm import core
+from pony.converting import str2date, str2time, str2datetime
+
+TEMPORAL = ('date', 'time', 'datetime')
 
 DEFAULT = object()          # engine-side marker for "keyword missing"
 I64 = 2 ** 63
@@ -45,6 +49,9 @@ def enc(v):
     if isinstance(v, str): return {'t': 'str', 'v': v}
     if isinstance(v, float): return {'t': 'flt', 'v': num_of_float(v)}
     if isinstance(v, Decimal): return {'t': 'dec', 'v': num_of_dec(v)}
+    if isinstance(v, datetime) and v.tzinfo is None: return {'t': 'datetime', 'v': [v.year, v.month, v.day, v.hour, v.minute, v.second, v.microsecond]}   # before date: a datetime is a date
+    if isinstance(v, date) and not isinstance(v, datetime): return {'t': 'date', 'v': [v.year, v.month, v.day]}
+    if isinstance(v, time) and v.tzinfo is None: return {'t': 'time', 'v': [v.hour, v.minute, v.second, v.microsecond]}
     return {'t': 'other', 'v': type(v).__name__}
 
 def enc_out(v):
@@ -65,17 +72,18 @@ class Decl:
     def __init__(self, kind, topts, required, aopts=None, check=None, pk=False):
         self.kind = kind; self.topts = dict(topts); self.required = required or pk; self.aopts = dict(aopts or {}); self.check = check; self.pk = pk
     def py_type(self):
-        return {'int': int, 'float': float, 'dec': Decimal, 'str': LongStr if self.topts.get('long') else str}[self.kind]
+        return {'int': int, 'float': float, 'dec': Decimal, 'str': LongStr if self.topts.get('long') else str, 'date': date, 'time': time, 'datetime': datetime}[self.kind]
     def kwargs(self):
-        kw = {k: v for k, v in self.topts.items() if k not in ('long', 'max_len_pos')}
+        kw = {k: v for k, v in self.topts.items() if k not in ('long', 'max_len_pos', 'precision_pos')}
         kw.update(self.aopts)
         if self.check is not None: kw['py_check'] = CHECKS[self.check]
         return kw
     def args(self):
+        if 'precision_pos' in self.topts: return (self.topts['precision_pos'],)
         return (self.topts['max_len_pos'],) if 'max_len_pos' in self.topts else ()
     def text(self):
         a = [self.py_type().__name__] + [repr(x) for x in self.args()]
-        a += ['%s=%r' % kv for kv in sorted(self.topts.items()) if kv[0] not in ('long', 'max_len_pos')]
+        a += ['%s=%r' % kv for kv in sorted(self.topts.items()) if kv[0] not in ('long', 'max_len_pos', 'precision_pos')]
         a += ['%s=%r' % kv for kv in sorted(self.aopts.items())]
         if self.check: a.append('py_check=' + self.check)
         return '%s(%s)' % ('PrimaryKey' if self.pk else 'Required' if self.required else 'Optional', ', '.join(a))
@@ -90,8 +98,11 @@ class Decl:
         if 'default' in self.aopts: return self.aopts['default']
         if self.kind == 'str' and not self.required and not self.nullable(): return ''
         return None
+    def precision(self):
+        return self.topts.get('precision_pos', self.topts.get('precision', 6))
     def model_type(self):
         t = self.topts
+        if self.kind in TEMPORAL: return {'k': self.kind, 'precision': self.precision()}
         if self.kind == 'int':
             return {'k': 'int', 'size': t.get('size'), 'unsigned': t.get('unsigned', False), 'min': t.get('min'), 'max': t.get('max'), 'uint64': False}
         if self.kind == 'float':
@@ -157,6 +168,21 @@ def spec_convert(d, v):
             if x.is_nan() or b.is_nan(): return ('reject', 'NaN is not within a bound')
             if (below and not b <= x) or (not below and not x <= b): return ('reject', 'below min' if below else 'above max')
         return ('ok', x)
+    if d.kind in TEMPORAL:
+        p = d.precision()
+        def rnd(us): return 0 if p == 0 else (us // 10 ** (6 - p)) * 10 ** (6 - p)
+        if isinstance(v, str):
+            try: v = {'date': str2date, 'time': str2time, 'datetime': str2datetime}[d.kind](v)
+            except Exception: return ('reject', 'unparsable text')
+        if d.kind == 'date':
+            if isinstance(v, datetime): return ('ok', v.date())            # the documented normalisation: a datetime is cut to its date
+            if isinstance(v, date): return ('ok', v)
+            return ('reject', 'not a date')
+        if d.kind == 'time':
+            if isinstance(v, time): return ('ok', v.replace(microsecond=rnd(v.microsecond)))
+            return ('reject', 'not a time')
+        if isinstance(v, datetime): return ('ok', v.replace(microsecond=rnd(v.microsecond)))
+        return ('reject', 'not a datetime')
     if d.kind == 'str':
         if not isinstance(v, str): return ('reject', 'not a str')
         s = v.strip() if t.get('autostrip', True) else v
@@ -337,6 +363,30 @@ def dec_candidates(d):
     other = [0, 1, -1, 7, True, 0.1, -0.5, 1e-7, 0.0, math.inf, math.nan, '1.5', ' 2 ', '-0.000', 'NaN', 'x', '', None, [1], b'1', (0, (1, 5), -1), DEFAULT]
     return pts + other
 
+US6 = [0, 1, 9, 99, 100, 999, 1000, 99999, 100000, 123456, 500000, 999000, 999999]
+
+def temporal_decls(ctx):
+    out = [(True, Decl('date', {}, True)), (True, Decl('date', {}, False))]
+    for p in range(7):
+        core_case = p in (0, 3, 6)
+        out.append((core_case, Decl('time', {'precision_pos': p}, False)))
+        out.append((core_case, Decl('datetime', {'precision_pos': p}, p % 2 == 0)))
+    extra = [Decl('time', {'precision': 2}, True), Decl('datetime', {'precision': 4}, False), Decl('time', {'precision_pos': 7}, False), Decl('datetime', {'precision': -1}, False),
+             Decl('time', {}, False), Decl('datetime', {}, True)]
+    return out, extra
+
+def temporal_candidates(d, rng):
+    vals = [date(2020, 1, 2), date(1, 1, 1), date(9999, 12, 31),
+            datetime(2020, 1, 2, 10, 30, 15), datetime(2020, 1, 2), datetime(2020, 1, 2, 10, 30, 15, 123456), datetime(1, 1, 1, 0, 0, 0, 1), datetime(9999, 12, 31, 23, 59, 59, 999999),
+            time(10, 30, 15), time(0, 0), time(23, 59, 59, 999999), timedelta(hours=1), timedelta(0)]
+    vals += [time(10, 30, 15, u) for u in US6] + [datetime(2020, 1, 2, 10, 30, 15, u) for u in US6]
+    vals += [time(rng.randrange(24), rng.randrange(60), rng.randrange(60), rng.randrange(10 ** 6)) for _ in range(4)]
+    vals += [datetime(rng.randint(1, 9999), rng.randint(1, 12), rng.randint(1, 28), rng.randrange(24), rng.randrange(60), rng.randrange(60), rng.randrange(10 ** 6)) for _ in range(4)]
+    strs = ['2020-01-02', '01/02/2020', '2.1.2020', '2 jan 2020', '10:30:15', '10:30', '10:30:15.5', '10:30:15.123456', '10:30 pm', '2020-01-02 10:30:15', '2020-01-02 10:30:15.123456',
+            '2020-01-02T10:30:15', ' 2020-01-02 ', 'x', '', '2020-13-01', '25:00:00']
+    other = [0, 5, 1.5, True, Decimal(1), b'x', [1], (2020, 1, 2), None, DEFAULT]
+    return vals + strs + other
+
 WS = ['', ' ', '  ', '\t', '\n', '\x0b', '\x0c', '\r', '\x1c', '\x1f', '\x85', '\xa0', '\u1680', '\u2000', '\u2003', '\u200a', '\u2028', '\u2029',
       '\u202f', '\u205f', '\u3000',
       '\u200b', '\ufeff', '\x00', '\x1b']       # the last four are NOT whitespace for str.strip()
@@ -388,6 +438,9 @@ def str_candidates(d, rng):
 def aux_for(d, w):
     """results of the Python built-ins the model treats as given, for the value w that reaches the converter"""
     a = {}
+    if d.kind in TEMPORAL and isinstance(w, str):
+        try: a['parse'] = {'ok': enc({'date': str2date, 'time': str2time, 'datetime': str2datetime}[d.kind](w))}
+        except Exception as e: a['parse'] = {'error': type(e).__name__}
     if d.kind == 'int' and isinstance(w, str):
         try: a['parse'] = int(w)
         except ValueError: a['parse'] = None
@@ -446,8 +499,8 @@ def run_decl(ctx, d, cands, work):
         else: dflt_bad = r
     mt = d.model_type()
     # model: mapping outcome = init of the converter, then validation of a static default
-    probe = dict(op='validate', type=mt, attr=d.model_attr(None), value=enc(dflt) if dflt is not None else None, entry='assign', check=True, **aux_for(d, dflt))
-    probe['check'] = check_result(d, dflt)
+    probe = dict(op='tinit', precision=d.precision()) if kind in TEMPORAL else dict(op='validate', type=mt, attr=d.model_attr(None), value=enc(dflt) if dflt is not None else None, entry='assign', check=True, **aux_for(d, dflt))
+    if kind not in TEMPORAL: probe['check'] = check_result(d, dflt)
     work.reqs.append(probe); work.meta.append(('mapping', d, text, map_out, dflt))
     ctx.case(['mapping', text], kind='mapping:' + kind)
     ctx.count('mapping-outcome:%s:%s' % (kind, map_out[-1] if map_out[0] == 'error' else 'ok'))
@@ -528,7 +581,7 @@ def run_decl(ctx, d, cands, work):
             elif got[0] == 'ok' and entry in ('create', 'assign', 'set') and not same_value(got[1], exp[1]):
                 what = 'the accepted value is not the documented normalisation of the candidate'
                 key = 'wrong-normalisation:%s:%s:%s' % (text, show(v), entry)
-            elif got[0] == 'ok' and entry in ('get', 'exists', 'filter', 'getitem') and kind in ('int', 'str') and exp[1] is not None:
+            elif got[0] == 'ok' and entry in ('get', 'exists', 'filter', 'getitem') and kind in ('int', 'str') + TEMPORAL and exp[1] is not None:
                 found_exp = (exp[1] == base_val)
                 if got[2] != found_exp:
                     what = 'lookup by an accepted value does not find exactly the rows holding the normalised value'
@@ -540,6 +593,9 @@ def run_decl(ctx, d, cands, work):
             mentry = {'create': 'create', 'assign': 'assign', 'set': 'set'}.get(entry, 'lookup')
             req = dict(op='validate', type=mt, attr=d.model_attr(dflt_norm), value=enc(v), check=chk, entry=mentry, **aux)
             if d.pk and entry in ('assign', 'set'): req['entry'] = 'assign_pk'; req['old'] = enc(base_val)
+            if kind in TEMPORAL:
+                if v is None or v is DEFAULT: ctx.count('temporal:none-or-default-not-sent-to-the-model'); continue
+                req = dict(op='tvalidate', kind=kind, precision=d.precision(), value=enc(v), **aux)
             work.reqs.append(req)
             work.meta.append(('value', d, text, (v, entry), got))
         # the four entry points agree with each other (the property's last sentence), independent of spec and model
@@ -548,7 +604,7 @@ def run_decl(ctx, d, cands, work):
             ctx.violation('entry points disagree on whether the value is accepted', {'declaration': text, 'value': show(v), 'outcomes': {e: list(map(show, o)) for e, o in outcomes.items()}},
                           observed=acc, expected='the same outcome everywhere', key='entry-points-disagree:%s:%s' % (text, show(v)))
         # lookup by lambda finds what lookup by keyword finds (accepted, storable int/str values)
-        if base_id is not None and v is not DEFAULT and kind in ('int', 'str') and exp[0] == 'ok' and exp[1] is not None and storable(d, exp[1]) and 'exists' in outcomes and outcomes['exists'][0] == 'ok':
+        if base_id is not None and v is not DEFAULT and kind in ('int', 'str') + TEMPORAL and exp[0] == 'ok' and exp[1] is not None and storable(d, exp[1]) and 'exists' in outcomes and outcomes['exists'][0] == 'ok':
             got = real_entry(E, base_id, 'lambda', exp[1])
             ctx.case([text, show(v), 'lambda'], kind='entry:%s:lambda' % kind)
             if got[0] != 'ok' or got[2] != outcomes['exists'][2]:
@@ -678,13 +734,13 @@ def run(ctx):
     rng = ctx.rng
     work = Work()
     plans = []
-    for name, mk, cand in (('int', int_decls, lambda d: int_candidates(d)), ('float', float_decls, lambda d: float_candidates(d)),
+    for name, mk, cand in (('temporal', temporal_decls, lambda d: temporal_candidates(d, rng)), ('int', int_decls, lambda d: int_candidates(d)), ('float', float_decls, lambda d: float_candidates(d)),
                            ('dec', dec_decls, lambda d: dec_candidates(d)), ('str', str_decls, lambda d: str_candidates(d, rng))):
         grid, extra = mk(ctx)
         core_ds = [d for c, d in grid if c]
         rest = [d for c, d in grid if not c]
         if not ctx.thorough:
-            n = {'int': 70, 'float': 25, 'dec': 20, 'str': 12}[name]
+            n = {'int': 70, 'float': 25, 'dec': 20, 'str': 12, 'temporal': 0}[name]
             rest = rng.sample(rest, min(n, len(rest)))
         # Optional variants of a sample of the Required grid declarations
         opt = [Decl(d.kind, d.topts, False, d.aopts, d.check) for d in rng.sample(core_ds + rest, min(len(core_ds + rest), ctx.scale(8, 60))) if d.required]
